@@ -95,7 +95,9 @@ def _nets(E):
                 elif k == 'lin':
                     setattr(s, 'n%d' % i, nn.Linear(ch[nd[1]], nd[2]))
                 elif k == 'bn':
-                    setattr(s, 'n%d' % i, BN(ch[nd[1]]))
+                    flat = nodes[nd[1]][0] in ('flat', 'lin')
+                    kw = nd[2] if len(nd) > 2 else {}
+                    setattr(s, 'n%d' % i, (nn.BatchNorm1d if flat or dim == 1 else BN)(ch[nd[1]], **kw))
                 elif k == 'relu':
                     setattr(s, 'n%d' % i, nn.ReLU())
                 elif k == 'pool':
@@ -151,6 +153,12 @@ GSPECS = {
                                       ('conv', 2, 6, 1, {'stride': 2}), ('add', 5, 6), ('relu', 7),
                                       ('conv', 8, 4, 5, {'stride': 2}), ('relu', 9), ('pool', 10), ('flat', 11), ('lin', 12, 3)],
                         out=13, excluded=[]),
+    # fold_bn=True: Conv / Linear directly followed by affine and non-affine BatchNorm (the BN survives inside the fused layer)
+    'pit-foldbn-mix': dict(fold_bn=True, nodes=[('in', 3), ('conv', 0, 4, 3, {}), ('bn', 1), ('relu', 2),
+                                               ('conv', 3, 5, 3, {}), ('bn', 4, {'affine': False}), ('relu', 5),
+                                               ('conv', 6, 5, 3, {'groups': 5}), ('bn', 7), ('add', 8, 6),
+                                               ('pool', 9), ('flat', 10), ('lin', 11, 6), ('bn', 12), ('relu', 13), ('lin', 14, 3)],
+                           out=15, excluded=[]),
 }
 
 
@@ -221,8 +229,8 @@ def io_tied_layers(spec):
     return [i for i, nd in enumerate(nodes) if nd[0] in ('conv', 'lin') and i not in excluded and find(i) in tied]
 
 
-PROTOS_QUICK = ['pit-tcn', 'pit-cnn', 'mps-chan-gumbel', 'mps-layer-soft', 'sn-mixed'] + sorted(GSPECS)
-PROTOS_THOROUGH = PROTOS_QUICK + ['pit-tcn-off', 'pit-cnn-foldbn', 'mps-1d-hard', 'mps-chan-noshare', 'sn-gumbel-hard']
+PROTOS_QUICK = ['pit-tcn', 'pit-cnn', 'pit-cnn-foldbn', 'pit-tcn-foldbn', 'mps-chan-gumbel', 'mps-layer-soft', 'sn-mixed'] + sorted(GSPECS)
+PROTOS_THOROUGH = PROTOS_QUICK + ['pit-tcn-off', 'mps-1d-hard', 'mps-chan-noshare', 'sn-gumbel-hard']
 
 
 def build(name, E=None, seed=0):
@@ -235,10 +243,10 @@ def build(name, E=None, seed=0):
     if name in GSPECS:
         sp = GSPECS[name]
         shape = (sp['nodes'][0][1], 16) if sp.get('dim', 2) == 1 else (sp['nodes'][0][1], 8, 8)
-        m = E['PIT'](GNet(sp['nodes'], sp['out'], sp.get('dim', 2)), input_shape=shape, cost=cost, exclude_names=['n%d' % i for i in sp['excluded']])
+        m = E['PIT'](GNet(sp['nodes'], sp['out'], sp.get('dim', 2)), input_shape=shape, cost=cost, exclude_names=['n%d' % i for i in sp['excluded']], fold_bn=sp.get('fold_bn', False))
         x = torch.randn(2, *shape)
     elif name.startswith('pit-tcn'):
-        kw = dict(train_features=False, train_dilation=False, discrete_cost=True) if name.endswith('off') else {}
+        kw = dict(train_features=False, train_dilation=False, discrete_cost=True) if name.endswith('off') else dict(fold_bn=True) if name.endswith('foldbn') else {}
         m = E['PIT'](TCN(), input_shape=(3, 16), cost=cost, **kw)
         x = torch.randn(2, 3, 16)
     elif name.startswith('pit-cnn'):
@@ -521,7 +529,7 @@ def describe(method, model, x):
 
 
 # hand-derived ties of the hand-written prototypes (same rule as io_tied_layers, applied by reading `forward`)
-HAND_TIED = {'pit-tcn': ['cin', 'l2'], 'pit-tcn-off': ['cin', 'l2'], 'pit-cnn': ['l'], 'pit-cnn-foldbn': ['l']}
+HAND_TIED = {'pit-tcn': ['cin', 'l2'], 'pit-tcn-off': ['cin', 'l2'], 'pit-tcn-foldbn': ['cin', 'l2'], 'pit-cnn': ['l'], 'pit-cnn-foldbn': ['l']}
 
 
 def tied_masks(proto, model, S):
@@ -564,7 +572,7 @@ def state_coq(S, a):
             % ('; '.join(tens), '; '.join(lays), '; '.join(samp), coq(f[0]), coq(f[1]), coq(f[2]), coq(f[3]), coq(f[4])))
 
 
-HAND_STRIDED = {'pit-tcn': ['c1'], 'pit-tcn-off': ['c1']}
+HAND_STRIDED = {'pit-tcn': ['c1'], 'pit-tcn-off': ['c1'], 'pit-tcn-foldbn': ['c1']}
 
 
 def strided_masks(proto, model, S):
